@@ -86,7 +86,7 @@ func init() {
 	fw.Register(&fw.Check{
 		ID:    "C18",
 		Title: "Colour and styling never change what is printed",
-		Rule: "34 documents (all structural shapes plus Unicode summaries and tags with wide, combining and astral characters, quoted tag values, negative / >99h / zero totals, 12-hour times, empty records) x 31 command lines " +
+		Rule: fmt.Sprint(len(c18Docs())) + " documents (all structural shapes plus Unicode summaries and tags with wide, combining and astral characters, quoted tag values, negative / >99h / zero totals, 12-hour times, empty records) x " + fmt.Sprint(len(c18Commands)) + " command lines " +
 			"(print, print --with-totals, total, report x 5 aggregations x fill/diff/chart/decimal/now, tags -v -c, today --diff --now) x 8 styling configurations " +
 			"({--no-style, NO_COLOR, colour_scheme=no_colour} unstyled; {default, dark, light, basic} styled; light+--no-style), all through the complete CLI. A case = (document, command, configuration); all distinct.",
 		Assumptions: []string{
